@@ -27,7 +27,7 @@ def run(ctx):
              ('K-E2E(degenerate: K > L, edgeless networks, zero affinity layers)', [degenerate_e2e(rng.fork('d%d' % k), 50000 + k)[0] for k in range(ctx.budget(200, 5000))]),
              ('K-LAYOUT', gen.layout_cases(4))]
     for name, cs in comps:
-        res = ctx.component(name + ' (implementation only)', cs, model=False)
+        res = ctx.component(name + ' (implementation only)', cs, model=False, retain=False)
         n_eval += len(cs)
         keys.add(name)
     # malformed adjacency / affinity files through the in-process readers (implementation only)
@@ -45,7 +45,7 @@ def run(ctx):
             data, kind = (files.malformed_affinity if sub.chance(0.6) else files.mismatching_affinity)(sub, K, L)
             mal.append('RAFF %d %d %d %d %d %s' % (k, assort, K, L, sub.choice([0, K, K + 1]), files.hexbytes(data)))
             kinds['affinity-%d' % kind] = kinds.get('affinity-%d' % kind, 0) + 1
-    res = ctx.component('K-PARSE(malformed, implementation only)', mal, model=False)
+    res = ctx.component('K-PARSE(malformed, implementation only)', mal, model=False, retain=False)
     n_eval += len(mal)
     for k_ in kinds:
         keys.add(k_)
